@@ -2,7 +2,8 @@
 from . import pools
 from .pools import pick, subset, hexstr
 
-TI_NAMES = ["Fedora", "Red Hat Enterprise Linux", "Spacewalk", "Ünïcode Linux", "CentOS Stream", "neutral os"]
+TI_NAMES = ["Fedora", "Red Hat Enterprise Linux", "Spacewalk", "Ünïcode Linux", "CentOS Stream", "neutral os",
+            "Storage Server ;EUS", "hash #tag os", "eq=colon: os"]
 TI_SHORTS = ["F", "RHEL", "sw", "Fedora", "x1"]
 TI_VERSIONS = ["20", "7.0", "7.1", "10.0.1", "Rawhide", "eln"]
 TOP_IDS = ["Server", "Client", "Workstation", "BaseOS", "AppStream", "Fedora"]
@@ -10,7 +11,8 @@ CHILD_IDS = ["optional", "HighAvailability", "Tools", "RT", "SAP", "debug"]
 PLATFORMS = ["xen", "ppc64le", "uefi", "Xen-PV"]
 IMAGE_NAMES = ["boot.iso", "kernel", "initrd", "Kernel", "efiboot.img", "upgrade", "boot iso", "BOOT.ISO", "x.y-z_0", "initrd.IMG"]
 PATHS = ["Packages", ".", "repo", "src repo", "images/boot.iso", "a/b/c", "ünï/côde", "x" * 40, "Server/os",
-         "a=b", "c:d", "semi;colon", "has # hash", "[bracket]", "with = and : both", "back\\slash", "UPPER/lower"]
+         "a=b", "c:d", "semi;colon", "has # hash", "[bracket]", "with = and : both", "back\\slash", "UPPER/lower",
+         "Storage Server ;EUS", "x #y", "a ; b # c", "tail ;"]
 
 
 def gen_content(rng, max_top=3, max_children=3, src=None, float_ts=False):
